@@ -249,6 +249,14 @@ func dispatchScenario(state, kind string, ndesc int) *vsched.Scenario {
 					}
 				}
 			}
+			// ERR without HUP/RDHUP on a healthy, idle descriptor whose error queue is empty (the
+			// probe answers EAGAIN - the shape of a zero-copy completion notice): not a hang-up, the
+			// descriptor stays registered and in use
+			if batches == 1 && state == "idle" && f0&fERR != 0 && f0&(fHUP|fRDHUP|fIN) == 0 {
+				if s.hups != 0 || len(s.in) != 0 {
+					add("err-only-benign", ctx+": ERR alone with an empty error queue on a healthy descriptor: want no hang-up (the error-queue probe said EAGAIN)")
+				}
+			}
 			if kind == "conn+out" && f0&fOUT != 0 && f0&(fERR|fHUP|fRDHUP) == 0 && !peerClosedState && s.hups == 0 {
 				if s.acked != outRecvN[i] {
 					add("output-count", ctx+fmt.Sprintf(": OutputAck was told %d bytes, the peer could read %d", s.acked, outRecvN[i]))
